@@ -205,6 +205,9 @@ def main():
         log('check: unknown property', pid)
         return 2
     prop = PROPS[pid]
+    if os.environ.get('VERIF_ONLY'):
+        # developer aid: run a subset of the harnesses; evidence goes to a scratch file
+        prop = dict(prop, harness=os.environ['VERIF_ONLY'].split(','))
     build_engine()
     gen_registry()
     seed = int(os.environ.get('VERIF_SEED', '0') or 0)
@@ -385,7 +388,8 @@ def write_evidence(pid, prop, tier, seed, reports, confirmed, known, unclean, wa
         'assumptions': prop.get('assumptions', []), 'wall_s': round(wall, 2),
         'violations': len(confirmed),
     }
-    json.dump(ev, open(os.path.join(ROOT, 'evidence', pid + '.json'), 'w'), indent=1)
+    name = pid + ('.partial' if os.environ.get('VERIF_ONLY') else '') + '.json'
+    json.dump(ev, open(os.path.join(ROOT, 'evidence', name), 'w'), indent=1)
 
 
 if __name__ == '__main__':
